@@ -26,6 +26,7 @@ def run(ctx):
     facts = ctx.facts()
     malsec.shuffle_order(ctx, facts, "ORDER-shuffle")
     malsec.hash_guards(ctx, facts, "GUARD-hash")
+    malsec.shuffle_verify_path(ctx, facts, "PATH-verify")
     fields(ctx, facts)
     tag_consts(ctx, facts)
     key_cover(ctx, facts)
